@@ -4,6 +4,7 @@ import (
 	"encoding/json"
 	"fmt"
 	"net"
+	"reflect"
 	"runtime"
 	"sync"
 	"time"
@@ -29,17 +30,61 @@ type serialCase struct {
 	Flavour string `json:"flavour"`
 }
 type serialEv struct {
-	Ev    string      `json:"ev"`
-	Sc    int         `json:"sc"`
-	Seq   int         `json:"seq"`
-	C     int         `json:"c"`
-	I     int         `json:"i"`
-	Conns int         `json:"conns"`
-	Msgs  []int       `json:"msgs"`
-	Case  *serialCase `json:"case,omitempty"`
+	Ev    string         `json:"ev"`
+	Sc    int            `json:"sc"`
+	Seq   int            `json:"seq"`
+	C     int            `json:"c"`
+	I     int            `json:"i"`
+	Conns int            `json:"conns"`
+	Msgs  []int          `json:"msgs"`
+	Case  *serialCase    `json:"case,omitempty"`
+	Hooks []serialHookEv `json:"hooks,omitempty"`
+}
+
+// hook-level log of a scenario: arrivals (logged by the test before the completing bytes are fed) and the serve
+// loops' own events serve.msg / serve.ret (verif hook), in one total order
+type serialHookEv struct {
+	Ev string `json:"ev"`
+	C  int    `json:"c"`
+}
+type serialHookLog struct {
+	mu  sync.Mutex
+	evs []serialHookEv
+}
+
+func (h *serialHookLog) add(ev string, c int) {
+	h.mu.Lock()
+	h.evs = append(h.evs, serialHookEv{ev, c})
+	h.mu.Unlock()
+}
+
+type serialHookRef struct {
+	log *serialHookLog
+	c   int
+}
+
+var serialHookConns sync.Map // address of the memnet.Conn -> serialHookRef
+var serialHookOnce sync.Once
+
+func installSerialHook() {
+	serialHookOnce.Do(func() {
+		diam.SetVerifHook(func(point string, obj interface{}, args ...interface{}) {
+			if point != "serve.msg" && point != "serve.ret" {
+				return
+			}
+			if r, ok := serialHookConns.Load(transportOf(obj)); ok {
+				ref := r.(serialHookRef)
+				ref.log.add(point, ref.c)
+			}
+		})
+	})
 }
 
 func runSerialCollect(sc int, c *serialCase, emit func(serialEv)) {
+	installSerialHook()
+	hl := &serialHookLog{}
+	// conformance is recorded for in-memory byte-stream transports and the plain flavours
+	conform := (c.Via == "server" || c.Via == "dial" || c.Via == "server+wt") && (c.Flavour == "req" || c.Flavour == "ans" || c.Flavour == "mixed" || c.Flavour == "dwr")
 	var mu sync.Mutex
 	var evs []serialEv
 	seq := 0
@@ -144,6 +189,11 @@ func runSerialCollect(sc int, c *serialCase, emit func(serialEv)) {
 		mc := memnet.NewConn()
 		mc.NewestFirst = c.Flavour == "cn"
 		conns[k] = mc
+		if conform {
+			key := reflect.ValueOf(mc).Pointer()
+			serialHookConns.Store(key, serialHookRef{hl, k})
+			defer serialHookConns.Delete(key)
+		}
 		if c.Via == "server" || c.Via == "server+wt" {
 			ln.Push(mc)
 		} else {
@@ -233,6 +283,7 @@ func runSerialCollect(sc int, c *serialCase, emit func(serialEv)) {
 			var b []byte
 			for i := 1; i <= c.Msgs; i++ {
 				b = append(b, msg(k, i)...)
+				hl.add("arrive", k)
 			}
 			conns[k].Feed(b)
 		}
@@ -240,6 +291,9 @@ func runSerialCollect(sc int, c *serialCase, emit func(serialEv)) {
 		for i := 1; i <= c.Msgs; i++ {
 			for off := 0; off < 20; off++ {
 				for k := 1; k <= c.Conns; k++ {
+					if off == 19 {
+						hl.add("arrive", k)
+					}
 					conns[k].Feed(msg(k, i)[off : off+1])
 				}
 			}
@@ -247,6 +301,7 @@ func runSerialCollect(sc int, c *serialCase, emit func(serialEv)) {
 	default: // interleaved across connections
 		for i := 1; i <= c.Msgs; i++ {
 			for k := 1; k <= c.Conns; k++ {
+				hl.add("arrive", k)
 				conns[k].Feed(msg(k, i))
 			}
 		}
@@ -347,6 +402,12 @@ func runSerialCollect(sc int, c *serialCase, emit func(serialEv)) {
 	emit(serialEv{Ev: "reset", Sc: sc, Conns: c.Conns, Msgs: ms, Case: c})
 	for _, e := range final {
 		emit(e)
+	}
+	if conform {
+		hl.mu.Lock()
+		hooks := append([]serialHookEv{}, hl.evs...)
+		hl.mu.Unlock()
+		emit(serialEv{Ev: "hooklog", Sc: sc, Msgs: []int{}, Hooks: hooks})
 	}
 }
 
